@@ -108,6 +108,17 @@ func makeColumnDef(name string, typ string, cs []columnConstraint) ColumnDef {
 	return cd
 }
 
+// the value of `DEFAULT <bare word>`
+func bareDefault(s string) interface{} {
+	switch strings.ToUpper(s) {
+	case "TRUE":
+		return int64(1)
+	case "FALSE":
+		return int64(0)
+	}
+	return s
+}
+
 type ForeignKeyClause struct {
 	ForeignTable      string
 	ForeignColumns    []string
